@@ -335,3 +335,104 @@ Fixpoint outs (s : state) (h : list op) : list out :=
   | [] => []
   | o :: r => snd (step s o) :: outs (fst (step s o)) r
   end.
+
+(* ---- the HTTP token handlers (webserver/api.go, tokensHandler), as far as
+   they use the store.  Each handler reads the token and its tag with Get,
+   evaluates If-Match / If-None-Match against that tag ("" = the object does
+   not exist), and then calls Update / Delete with the tag it has just read.
+   Headers: one entity tag, or "*" (lists and weak tags are C18's).  The
+   request is authenticated as an administrator and the group exists; the
+   body decodes and does not name token or group. ---- *)
+Inductive hval := HStar | HTag (e : stamp).
+
+(* etagMatch(etag, header) *)
+Definition etag_match (e : etag) (h : hval) : bool :=
+  match h with
+  | HStar => match e with Some _ => true | None => false end
+  | HTag t => etag_eqb e (Some t)
+  end.
+
+(* checkPreconditions: Some status when the request is answered here *)
+Definition check_pre (read : bool) (e : etag) (im inm : option hval) : option Z :=
+  if match im with Some h => negb (etag_match e h) | None => false end then Some 412
+  else if match inm with Some h => etag_match e h | None => false end
+       then Some (if read then 304 else 412)
+       else None.
+
+Inductive areq :=
+| AGet (g n : Z) (im inm : option hval)
+| AList (g : Z)
+| APost (g : Z) (t : token) (st0 st : stamp)          (* tk_name t: the random name *)
+| APut (g n : Z) (im inm : option hval) (t : token) (st0 st : stamp)
+| ADelete (g n : Z) (im inm : option hval) (st : stamp).
+
+Record aresp := mkResp { a_status : Z; a_etag : etag; a_toks : list token }.
+
+(* httpError *)
+Definition http_error (r : res) : Z :=
+  match r with RNotExist => 404 | _ => 500 end.
+
+Definition with_name (t : token) (g n : Z) : token :=
+  mkTok n g (tk_exp t) (tk_nbf t) (tk_data t).
+
+Definition api_step (s : state) (q : areq) : state * aresp :=
+  match q with
+  | AGet g n im inm =>
+    let (s1, o) := step s (OGet n) in
+    match o_res o, o_toks o with
+    | ROk, t :: _ =>
+      if negb (tk_group t =? g) then (s1, mkResp 404 None [])
+      else match check_pre true (o_etag o) im inm with
+           | Some c => (s1, mkResp c None [])
+           | None => (s1, mkResp 200 (o_etag o) [t])
+           end
+    | r, _ => (s1, mkResp (http_error r) None [])
+    end
+  | AList g =>
+    let (s1, o) := step s (OList g) in
+    match o_res o with
+    | ROk => (s1, mkResp 200 (o_etag o) (o_toks o))
+    | r => (s1, mkResp (http_error r) None [])
+    end
+  | APost g t st0 st =>
+    let (s1, o) := step s (ODo (WUpdate (with_name t g (tk_name t)) None st0 st)) in
+    match o_res o with
+    | ROk => (s1, mkResp 201 None [])
+    | r => (s1, mkResp (http_error r) None [])
+    end
+  | APut g n im inm t st0 st =>
+    let (s1, o) := step s (OGet n) in
+    let proceed (e : etag) :=
+      match check_pre false e im inm with
+      | Some c => (s1, mkResp c None [])
+      | None =>
+        let (s2, o2) := step s1 (ODo (WUpdate (with_name t g n) e st0 st)) in
+        match o_res o2 with
+        | ROk => (s2, mkResp (match e with None => 201 | Some _ => 204 end) None [])
+        | r => (s2, mkResp (http_error r) None [])
+        end
+      end in
+    match o_res o, o_toks o with
+    | ROk, old :: _ =>
+      if negb (tk_group old =? g) then (s1, mkResp 409 None [])
+      else proceed (o_etag o)
+    | RNotExist, _ => proceed None
+    | r, _ => (s1, mkResp (http_error r) None [])
+    end
+  | ADelete g n im inm st =>
+    let (s1, o) := step s (OGet n) in
+    match o_res o, o_toks o with
+    | ROk, old :: _ =>
+      if negb (tk_group old =? g) then (s1, mkResp 404 None [])
+      else match check_pre false (o_etag o) im inm with
+           | Some c => (s1, mkResp c None [])
+           | None =>
+             let (s2, o2) := step s1 (ODo (WDelete n (o_etag o) st)) in
+             match o_res o2 with
+             | ROk => (s2, mkResp 204 None [])
+             | r => (s2, mkResp (http_error r) None [])
+             end
+           end
+    | r, _ => (s1, mkResp (http_error r) None [])
+    end
+  end.
